@@ -86,7 +86,29 @@ func PropC16(c *vs.Case, f Factory) error {
 	steps := 2 + c.Int(4)
 	for s := 0; s < steps; s++ {
 		edited := false
-		switch c.Weighted(5, 2, 2, 1, 1) {
+		switch c.Weighted(5, 2, 2, 1, 1, 1, 1) {
+		case 5: // the user deletes the target (it lingers while finalizers hold it)
+			if cur := env.Parent(); cur != nil && !IsDeleting(cur) {
+				env.W.Sim.ExtDelete(scn.Cfg.ParentResource, scn.ParentNS(), scn.ParentName(), "")
+				log = append(log, "target deleted")
+				c.Class("target-deleted")
+				edited = true
+			}
+		case 6: // the target is deleted and re-created under the same name (new UID), maybe no longer selected
+			env.W.Sim.Purge(scn.Cfg.ParentResource, scn.ParentNS(), scn.ParentName())
+			np := vs.CopyMap(scn.Parent)
+			if c.Bool() {
+				delete(metaOfMap(np)["labels"].(map[string]any), "enabled")
+				if a, ok := metaOfMap(np)["annotations"].(map[string]any); ok {
+					delete(a, "decorate")
+				}
+			}
+			if created, err := env.W.Sim.ExtCreate(scn.Cfg.ParentResource, np); err == nil {
+				env.ParentUID = metaStr(created, "uid")
+				log = append(log, "target replaced by a new object of the same name")
+				c.Class("target-replaced")
+				edited = true
+			}
 		case 4: // the finalize hook is added to / removed from the decorator
 			scn.Cfg.FinalizeHook = !scn.Cfg.FinalizeHook
 			if err := env.Restart(); err != nil {
@@ -275,7 +297,12 @@ func PropC16(c *vs.Case, f Factory) error {
 			if !r.Mutating() || !r.Accepted() || r.Def.Resource == scn.Cfg.ParentResource || r.Pre == nil {
 				continue
 			}
-			if ControllerOf(r.Pre) != env.ParentUID || AnnotationsOf(r.Pre)["metacontroller.k8s.io/decorator-controller"] != scn.Cfg.Name {
+			// (the target the sync acted on: the one in its cache, which may be a replaced predecessor of the live one)
+			actedOn := map[string]bool{metaStr(before, "uid"): true}
+			if cu := FindIn(t.PreCache[scn.Cfg.ParentResource], before); cu != nil {
+				actedOn[metaStr(cu, "uid")] = true
+			}
+			if !actedOn[ControllerOf(r.Pre)] || AnnotationsOf(r.Pre)["metacontroller.k8s.io/decorator-controller"] != scn.Cfg.Name {
 				return withTrace(vs.Violf("C16/foreign-attachment-written", "%s wrote an object that is not this decorator's attachment (controller %q, marker %q)", r.String(), ControllerOf(r.Pre), AnnotationsOf(r.Pre)["metacontroller.k8s.io/decorator-controller"]), t)
 			}
 		}
@@ -309,6 +336,9 @@ func judgeTargetWrites(e *Env, t *SyncTrace, fin string) error {
 	for _, r := range t.Reqs {
 		if !r.Mutating() || !r.Accepted() || r.Def.Resource != e.Scn.Cfg.ParentResource || r.Pre == nil || r.Post == nil {
 			continue
+		}
+		if cu := FindIn(t.PreCache[e.Scn.Cfg.ParentResource], r.Pre); cu != nil && metaStr(cu, "uid") != metaStr(r.Pre, "uid") {
+			return vs.Violf("C16/wrote-replaced-target", "%s wrote an object with UID %s; the sync had observed a target of that name with UID %s", r.String(), metaStr(r.Pre, "uid"), metaStr(cu, "uid"))
 		}
 		if !vs.JSONEqual(r.Pre["spec"], r.Post["spec"]) {
 			return vs.Violf("C16/spec-modified", "%s changed the target's spec from %v to %v", r.String(), r.Pre["spec"], r.Post["spec"])
